@@ -32,6 +32,17 @@ def check(model: Model, run: Run) -> None:
                        "it leaves alone is printable ASCII; (3) format agreement - the callback writes backslash + two hex digits and that language is accepted by the "
                        "un-escaper's patterns. With (1)-(3) the serialiser is a homomorphism h with g(h(v)) = v for the un-escaper g. NOT decided: that the parser "
                        "rebuilds the same tree (its offset arithmetic: C14)")
+    from ..commonrules import no_memoised_views_of_fields, memoised_results_are_immutable
+    no_memoised_views_of_fields(model, run, "J19-text-is-computed-when-asked", [f"{FILTER}.LDAPFilter"] + list(model.subclasses(f"{FILTER}.LDAPFilter", strict=True)),
+                                "str() keeps giving the first text after a clause is added to or removed from the list the filter holds")
+    memoised_results_are_immutable(model, run, "J20-no-memoised-mutable-results", [FILTER], "one parse or serialisation changes the result of the next")
+    from ..commonrules import no_capacity_limits
+    fs = model.find_method(f"{FILTER}.LDAPFilter", "from_string")
+    if fs is None:
+        raise AnalysisError("LDAPFilter.from_string not found")
+    n_guards = no_capacity_limits(model, run, "J18-no-capacity-limit-in-the-parser", fs, FILTER, "filter text",
+                                  "a filter str() wrote (any depth, any number of clauses) is no longer read back")
+    run.floor("guarded raises in the filter string parser", n_guards, 10)
     # ---- locate the serialiser through the escape pattern's use site --------------------
     subs = [s for s in find_sites(model) if s.module == FILTER and s.api == "sub" and isinstance(s.pattern, bytes)]
     # the value serialiser is the module function the __str__ methods hand their bytes fields to; its substitution is the escape site
@@ -70,11 +81,11 @@ def check(model: Model, run: Run) -> None:
             break
         ser_q = nxt.most_common(1)[0][0]
     ser = [s for s in subs if s.func == ser_q or s.func.startswith(ser_q + ".")]
-    if len(ser) != 1:
+    if not ser or any(s_.node is not ser[0].node for s_ in ser):
         raise AnalysisError(f"expected one escape substitution in {ser_q}, found {len(ser)}")
     esite = ser[0]
     sfi = model.functions[ser_q]
-    single = single_byte_pattern(esite.pattern, esite.flags)
+    single = all(single_byte_pattern(s_.pattern, s_.flags) for s_ in ser)
     enfa = build(esite.pattern, esite.flags, "match") if single else None
     run.ob("J2-escape-pattern-is-one-unconditional-byte-class", single, {"pattern": repr(esite.pattern)[:80]})
     if not single:
@@ -85,6 +96,14 @@ def check(model: Model, run: Run) -> None:
     E = enfa.positions[0].cs
     for p_ in enfa.positions[1:]:
         E = E.union(p_.cs)
+    # the substitution chooses between several patterns (`pattern = A if flag else B`): a byte is certainly escaped only if every
+    # choice escapes it - the flag is the caller's, and the text is read back by one parser whatever the caller chose
+    for s_ in ser[1:]:
+        n2 = build(s_.pattern, s_.flags, "match")
+        E2 = n2.positions[0].cs
+        for p_ in n2.positions[1:]:
+            E2 = E2.union(p_.cs)
+        E = E.intersect(E2)
     # ---- (1) sanitiser routing ------------------------------------------------------------
     n_fields = 0
     for cq in model.subclasses(f"{FILTER}.LDAPFilter", strict=True):
